@@ -336,11 +336,6 @@ package objecttree
 // ---------------------------------------------------------------------------------------------
 // C06: order ids are filled in without renumbering: updateHeads writes an order id only into changes
 // that had none, so the relative order already handed to consumers (and stored) never changes.
-//@ package github.com/anyproto/lexid
-//@ func (*LexId).NextBefore
-//@   modifies nothing
-//@ func (*LexId).Next
-//@   modifies nothing
 //@ package sort
 //@ func Strings
 //@   modifies object arg0 kinds string
@@ -370,3 +365,33 @@ package objecttree
 //@     invariant [existing_order_ids_kept] forall k int, c *Change :: 0 <= k && k < len(buf) && c == buf[k] && atentry(c.OrderId) != "" ==> c.OrderId == atentry(c.OrderId)
 //@     invariant [gap_is_unnumbered] forall k int, c *Change :: 0 <= k && k < lastOrderIdx && k < len(buf) && c == buf[k] ==> atentry(c.OrderId) == ""
 //@     invariant -1 <= i && i < lastOrderIdx && lastOrderIdx < len(buf)
+
+// ---------------------------------------------------------------------------------------------
+// C15: a child that arrives after its parent was queued for deletion or deleted is queued at creation.
+//@ ghost geStatus Int stable
+//@ ghost geFound Bool stable
+//@ ghost ueWithStatus Bool stable
+//@ ghost geCalls Int stable
+//@ func iface headstorage.HeadStorage.GetEntry
+//@   modifies nothing
+//@   sets geStatus = result0.DeletedStatus
+//@   sets geFound = result1 == nil
+//@   sets geCalls = geCalls + 1
+//@ func iface headstorage.HeadStorage.UpdateEntry
+//@   modifies nothing
+//@   sets ueWithStatus = ueWithStatus || arg2.DeletedStatus != nil
+//@ func CreateStorageTx
+//@   ensures [late_child_of_deleted_parent_is_queued] result1 == nil && geCalls > old(geCalls) && geFound && geStatus >= 1 ==> ueWithStatus
+
+// ---------------------------------------------------------------------------------------------
+// C01: on the rebuild-from-storage path only changes that actually attached are reported (and then
+// stored / announced) as new.
+//@ func (*treeBuilder).buildWithAdded
+//@   ensures [reported_new_changes_attached] result2 == nil ==> (forall k int :: 0 <= k && k < len(result1) ==> (exists j int :: 0 <= j && j < len(added) && result1[k] == added[j]))
+//@   loop 2:
+//@     invariant -1 <= rangeindex && rangeindex < len(added) && (len(added) == 0 || rootof(newChanges) != rootof(added))
+//@     invariant forall k int :: 0 <= k && k < len(newChanges) ==> (exists j int :: 0 <= j && j <= rangeindex && newChanges[k] == added[j])
+// (AddFast is called on a brand-new tree: the list of attached changes it returns is its own buffer)
+//@ func (*Tree).AddFast
+//@   trusted
+//@   ensures len(result) == 0 || fresh(result)
